@@ -119,7 +119,7 @@ theorem ax0N (h : NoHole Lx Ly Lz) (hx : 2 ≤ Lx) (hy : 2 ≤ Ly) (x y z : Int)
     have h5 := hp.2.2.2.2
     rw [sgnY_0] at h5
     unfold SelC at hc
-    rcases hc with hc | hc | ⟨hc, _⟩ | ⟨_, hc | hc | hc | hc⟩
+    rcases hc with hc | hc | ⟨hc, _⟩ | ⟨_, hc | hc | hc | hc | hc | hc⟩
     · omega
     · omega
     · omega
@@ -130,6 +130,8 @@ theorem ax0N (h : NoHole Lx Ly Lz) (hx : 2 ≤ Lx) (hy : 2 ≤ Ly) (x y z : Int)
     · exfalso; apply hc.2.2
       rw [pt_noHole h (by omega) (by omega) (by omega), sgnY_0]; omega
     · exfalso; unfold QC at hc; unfold NoHole at h; omega
+    · exfalso; unfold QY at hc; unfold NoHole at h; omega
+    · exfalso; unfold QX at hc; unfold NoHole at h; omega
   · intro hb
     unfold InAp at hb
     refine ⟨by decide, by unfold VertexLoc inE2 inE; omega, ?_, ?_⟩
